@@ -46,7 +46,9 @@ func pick[T any](tier int, quick []T, more []T) []T {
 func FilePaths(tier int) []string {
 	return pick(tier,
 		[]string{"/a", "@{bin}/c", "/etc/x", "@{HOME}/.d", "/usr/share/x", "@{run}/x", "/aaa", "/zzz", "/Foo", "/foo",
-			`"/with space/e"`, "/{f,g{h,i}}/**", `"/a b"`, `"/a!b"`, "@{exec_path}", "/usr/lib/x", "/dev/shm/x", "/dev/dri/card0", `"/with (1)/e"`, "/etc/k=v", `"/a, b/c"`, `/srv/a\[b`, `/srv/\{x\}/y`},
+			`"/with space/e"`, "/{f,g{h,i}}/**", `"/a b"`, `"/a!b"`, "@{exec_path}", "/usr/lib/x", "/dev/shm/x", "/dev/dri/card0", `"/with (1)/e"`, "/etc/k=v", `"/a, b/c"`, `/srv/a\[b`, `/srv/\{x\}/y`,
+			// a number followed by a letter, by another digit, by a larger number (an order that looks at numbers must stay transitive)
+			"/dev/nvme1n1", "/dev/nvme10n1", "/dev/nvme2n1"},
 		[]string{"@{sh_path}", "@{coreutils_path}", "@{open_path}", "@{lib}/y", "/opt/a", "/var/x", "/boot/x", "/home/u/x",
 			"@{user_cache_dirs}/x", "@{user_config_dirs}/x", "@{user_share_dirs}/x", "/tmp/x", "@{tmp}/x", "/dev/shm/x",
 			"@{sys}/x", "@{PROC}/x", "/dev/x", "/", "/l/", "/j/[0-9]*", "@{run}/user/@{uid}/k", "/é", "/a~", "/A", "/usr/share/X"})
